@@ -66,7 +66,7 @@ PURE_BUILTINS = {"divmod", "pow", "round", "ord", "chr", "hex", "len", "range", 
 
 class PX:
     def __init__(self, repo, *, models=None, inline=None, max_paths=20000, max_depth=4, cancel=False,
-                 loop_iters=(0, 1, 2), while_bound=3, facts=None, auto_timeout=True, pure=()):
+                 loop_iters=(0, 1, 2), while_bound=3, facts=None, auto_timeout=True, pure=(), refine_membership=False):
         self.repo = repo
         self.models = list((models or {}).items()) if isinstance(models, dict) else list(models or [])
         self.inline = inline  # None: same-class sync methods + closures; else callable(FuncRef, awaited)->bool
@@ -75,11 +75,13 @@ class PX:
         self.loop_iters, self.while_bound = tuple(loop_iters), while_bound
         self.facts = dict(facts or {})
         self.auto_timeout = auto_timeout
+        self.refine_membership = refine_membership
         self.pure = tuple(pure)  # callee text patterns that are side-effect free & uninteresting (no event)
         self.hier = Hierarchy(repo)
         self.truncated = 0
         self.visited = set()
         self.ctxstack = []
+        self.refined = {}
 
     # ------------------------------------------------------------------ enumeration
     def explore(self, func: FuncRef, setup):
@@ -119,6 +121,7 @@ class PX:
             self.events, self.memo, self.counters, self.symfields = [], {}, {}, {}
             self.epoch, self.assumes, self.timeouts, self.top_frame = 0, [], [], None
             self.ctxstack = []
+            self.refined = {}
             try:
                 v = entry()
                 paths.append(self._path("return", v))
@@ -653,7 +656,10 @@ class PX:
         m = getattr(self, "e_" + type(e).__name__, None)
         if m is None:
             raise Unsupported(f"{fr.mod}:{getattr(e, 'lineno', '?')} expression {type(e).__name__}")
-        return m(e, fr)
+        v = m(e, fr)
+        if isinstance(v, Sym) and self.refined and v.tag in self.refined:
+            return self.refined[v.tag]
+        return v
 
     def e_Constant(self, e, fr):
         return e.value
@@ -1039,6 +1045,19 @@ class PX:
             if isinstance(r, _PyMethod):
                 raise Unsupported("in on method")
             if isinstance(r, (list, tuple, set, frozenset, dict, str, bytes, bytearray, range)):
+                if isinstance(l, Sym) and self.refine_membership and 0 < len(r) <= 12 and not isinstance(r, (str, bytes, bytearray, range)) \
+                        and not any(isinstance(x, (Sym, Obj)) or _has_sym(x) for x in r):
+                    # case split: the abstract value is one of the members (and is refined to it) or none of them
+                    items = sorted(r, key=repr) if isinstance(r, (set, frozenset, dict)) else list(r)
+                    key = f"member:{l.tag}:{_short(items)}"
+                    if key not in self.memo:
+                        self.memo[key] = self.choose(len(items) + 1, key)
+                        self.assumes.append((key, items[self.memo[key]] if self.memo[key] < len(items) else None))
+                    c = self.memo[key]
+                    if c < len(items):
+                        self.refined[l.tag] = items[c]
+                        return True
+                    return False
                 if isinstance(l, Sym) or _has_sym(l):
                     # membership of an abstract value in a concrete collection
                     items = list(r)
